@@ -244,7 +244,15 @@ class RealSession:
             elif t[1] == "edge":
                 c._last_mid = 65534 - int(t[2])
             else:
-                c._last_mid = (max([c._last_mid] + list(c._out_messages.keys())) // 1000 + 1) * 1000 % 65000
+                # the start of a block of 1000 ids that holds no id still in use (after the wrap-around the next block up
+                # may be one the run has already used)
+                live = set(c._out_messages.keys())
+                cand = (max([c._last_mid] + list(live)) // 1000 + 1) * 1000 % 65000
+                for _ in range(70):
+                    if not any(cand < m <= cand + 999 for m in live):
+                        break
+                    cand = (cand + 1000) % 65000
+                c._last_mid = cand
         else:
             raise ValueError("bad op " + k)
 
@@ -387,7 +395,7 @@ def _next_op(rng, sh):
             # ... and a fresh connection right after (a PINGREQ may have been outstanding on the old one)
             # (the servicing loop may run before the CONNACK is there: nothing of the old connection may count against
             # the new one)
-            early = ([f"tick {rng.choice([0, 100, 500])}", "loop_misc"] if rng.random() < 0.5 else [])
+            early = ([f"tick {rng.choice([0, 125, 500])}", "loop_misc"] if rng.random() < 0.5 else [])   # (125 ms: exact in binary floating point)
             sh.pending += (["rx eof"] if rng.random() < 0.5 else []) + ["reconnect ok"] + early + ["rx connack 0 0", "loop_misc",
                                                                        f"tick {rng.choice([500, k // 2, k])}", "loop_misc"]
             _after_connect(sh, True)
@@ -443,8 +451,9 @@ def _next_op(rng, sh):
         # stays unacknowledged; one lap later a subscribe / unsubscribe / publish comes round to it (every id handed out is
         # in 1..65535, 65535 is followed by 1, a publish landing on the live id is refused)
         q = rng.choice([1, 2])
-        nxt = rng.choice([f"subscribe {hx(b'a/#')} 1", f"unsubscribe {hx(b't')}", f"publish {q} {hx(b't')} {hx(b'w')} 0",
-                          f"publish 0 {hx(b't')} {hx(b'w')} 0"])
+        # (no QoS 0 publish here: it would legitimately reuse the id of the live message, which the id-keyed monitors
+        # cannot tell from an early completion of that message)
+        nxt = rng.choice([f"subscribe {hx(b'a/#')} 1", f"unsubscribe {hx(b't')}", f"publish {q} {hx(b't')} {hx(b'w')} 0"])
         k = rng.choice([0, 0, 1])
         sh.pending = [f"publish {q} {hx(b't')} {hx(b'e')} 0"] * (k + 1) + [f"setmid edge {rng.choice([0, 0, 1])}", nxt, nxt, "setmid fresh 0"]
         return f"setmid edge {k}"
